@@ -49,8 +49,13 @@ def _alarm(signum, frame):
     raise RunTimeout()
 
 
-def safe_run(mod, sc: dict, timeout: float = PER_RUN_TIMEOUT_S) -> dict:
-    """Run one scenario; classify harness trouble apart from verdicts."""
+def safe_run(mod, sc: dict, timeout: float | None = None) -> dict:
+    """Run one scenario; classify harness trouble apart from verdicts.
+
+    A check whose scenarios are small bounded programs may declare CPU_LIMIT_S and TIMEOUT_SIG: a run that is still
+    going after that many CPU seconds is then a verdict ("the run does not terminate"), not a harness error."""
+    if timeout is None:
+        timeout = float(getattr(mod, "CPU_LIMIT_S", PER_RUN_TIMEOUT_S))
     old = signal.signal(signal.SIGALRM, _alarm)
     oldp = signal.signal(signal.SIGPROF, _alarm)
     signal.setitimer(signal.ITIMER_REAL, PER_RUN_WALL_BACKSTOP_S)
@@ -60,7 +65,11 @@ def safe_run(mod, sc: dict, timeout: float = PER_RUN_TIMEOUT_S) -> dict:
     except InvalidScenario:
         raise
     except RunTimeout:
-        res = {"sig": None, "harness": "wall-timeout", "msg": "run exceeded wall timeout"}
+        tsig = getattr(mod, "TIMEOUT_SIG", None)
+        if tsig:
+            res = {"sig": f"{mod.PROPERTY}/{tsig}", "msg": f"the run was still going after {timeout:.0f} CPU seconds", "timed_out": True}
+        else:
+            res = {"sig": None, "harness": "wall-timeout", "msg": "run exceeded wall timeout", "timed_out": True}
     except Exception:  # harness bug (checks convert repo exceptions themselves)
         res = {"sig": None, "harness": "exception", "msg": traceback.format_exc(limit=12)}
     finally:
@@ -96,6 +105,13 @@ def _batch(prop: str, tier: str, vseed: int, start: int, count: int) -> dict:
                    "digest": "", "nontrivial": False, "counters": {}, "sim_s": 0, "deliveries": 0,
                    "klass": "invalid", "state": None}
         agg["n"] += 1
+        if res.get("timed_out"):
+            agg["timeouts"] = agg.get("timeouts", 0) + 1
+            if agg["timeouts"] >= 2 and res.get("sig"):
+                # runs that do not end are expensive: two in one batch are enough to report
+                v = agg["viol"].setdefault(res["sig"], {"run": i, "msg": res["msg"], "count": 0})
+                v["count"] += 1
+                break
         if res.get("harness"):
             if len(agg["harness"]) < 5:
                 agg["harness"].append({"run": i, "kind": res["harness"], "msg": res["msg"]})
@@ -229,7 +245,7 @@ def minimise_and_write(mod, prop, tier, vseed, run_index, sig, msg, budget_s) ->
 
     def test(cand):
         try:
-            r = safe_run(mod, cand, timeout=30.0)
+            r = safe_run(mod, cand, timeout=5.0 if sig.endswith("/" + str(getattr(mod, "TIMEOUT_SIG", "\0"))) else 30.0)
         except InvalidScenario:
             return False
         return (not r.get("harness")) and r["sig"] == sig
@@ -389,6 +405,7 @@ def main(argv=None) -> int:
         total["samples"].extend(a["samples"])
         total["samples"].sort(key=lambda x: x["run_index"])
         del total["samples"][3:]
+        total["timeouts"] = total.get("timeouts", 0) + a.get("timeouts", 0)
         for sig, v in a["viol"].items():
             cur = total["viol"].get(sig)
             if cur is None:
@@ -416,6 +433,8 @@ def main(argv=None) -> int:
                     merge(fut.result())
                 if time.monotonic() - t0 > wall_budget and nxt < runs:
                     truncated = True
+                if total.get("timeouts", 0) >= 4 and nxt < runs:
+                    truncated = True        # non-terminating runs: stop searching, report what was found
         except cf.process.BrokenProcessPool as e:
             print(f"HARNESS-ERROR worker died: {e}")
             return 2
